@@ -280,6 +280,14 @@ class MuChannel:
         """
         num_rx, num_tx = self._su_siso_channels.shape
 
+        if pathloss_matrix is None:
+            # Disable the path loss in all links
+            self._pathloss_matrix = None
+            for rx in range(num_rx):
+                for tx in range(num_tx):
+                    self._su_siso_channels[rx, tx].set_pathloss(None)
+            return
+
         # Set in an attribute for easy retriaval later
         self._pathloss_matrix = np.copy(pathloss_matrix)
 
